@@ -80,7 +80,7 @@ def gen_cases(rng, tier, scale):
         pre = ['pi 1'] if pi else []
         grp = f'g{k}'
         d = DATA['o'] if where in ('with', 'each') else DATA
-        cases.append(rcase(f'{grp}m', main, DATA, pre=pre, partials=parts, entry=0, kind='main', grp=grp, W=W, where=where, pi=pi, tags=[where] + (['prevent_indent'] if pi else [])))
+        cases.append(rcase(f'{grp}m', main, DATA, pre=pre, partials=parts, entry=rng.choice([0, 0, 2, 4, 6, 7]), kind='main', grp=grp, W=W, where=where, pi=pi, tags=[where] + (['prevent_indent'] if pi else [])))
         # p alone on the context it is called with
         ops = list(pre) + [f'regs {x(n_)} {x(s_)}' for n_, s_ in parts.items()] + [f'r 0 {x("p")} {jtok(d)} -1']
         cases.append({'line': f'{grp}p ' + ' ; '.join(ops), 'kind': 'alone', 'grp': grp, 'tpl': body, 'tags': ['alone']})
